@@ -51,6 +51,8 @@ type roleSpec struct {
 	Children    []*roleSpec `json:"roles,omitempty"`
 	Task        *tplSpec    `json:"task,omitempty"`
 	Critical    bool        `json:"critical,omitempty"`
+	CallFunc    string      `json:"call_func,omitempty"` // call role: the expression to evaluate
+	CallTrigger string      `json:"call_trigger,omitempty"`
 
 	parent *roleSpec
 	path   string
@@ -150,6 +152,10 @@ func (r *roleSpec) writeBody(sb *strings.Builder, ind string, files map[string]s
 		files["tasks/"+r.Task.Name+".yaml"] = r.Task.yaml()
 		return
 	}
+	if r.CallFunc != "" {
+		fmt.Fprintf(sb, "%scall:\n%s  func: %s\n%s  trigger: %s\n%s  timeout: 20s\n%s  critical: false\n", ind, ind, yq(r.CallFunc), ind, r.CallTrigger, ind, ind)
+		return
+	}
 	fmt.Fprintf(sb, "%sroles:\n", ind)
 	for _, ch := range r.Children {
 		fmt.Fprintf(sb, "%s  - name: %s\n", ind, yq(ch.Name))
@@ -189,6 +195,18 @@ func (r *roleSpec) taskRoles() []*roleSpec {
 	var out []*roleSpec
 	for _, ch := range r.Children {
 		out = append(out, ch.taskRoles()...)
+	}
+	return out
+}
+
+// callRoles lists the call roles below r in document order.
+func (r *roleSpec) callRoles() []*roleSpec {
+	if r.CallFunc != "" {
+		return []*roleSpec{r}
+	}
+	var out []*roleSpec
+	for _, ch := range r.Children {
+		out = append(out, ch.callRoles()...)
 	}
 	return out
 }
